@@ -19,17 +19,21 @@ from ..engine import Finding, Timeout
 ID = 'C02'
 TITLE = 'join is the relational inner/cross join and xor the anti-join; both terminate'
 STATEMENT = ('join returns, as a multiset of rows, exactly the pairs (l, r) whose keys are equal (int = same-valued float, None = None, '
-             'NaN = NaN), with no key the cross product; xor returns exactly the rows of x whose key matches no row of y; both terminate '
-             'and leave both operands unchanged')
+             'NaN = NaN), each carrying the key, every other column of both sides and same-named non-key columns combined by mode; with '
+             'no key the cross product; xor returns exactly the rows of x whose key matches no row of y; both terminate and leave both '
+             'operands unchanged')
 LEAN_FILES = ['Basic', 'Cmp', 'Sort', 'TableBasic', 'Join', 'JoinDriver', 'Tri', 'CmpLemmas', 'JoinLemmas', 'KeyEq', 'JoinCols', 'C02']
-RULE = ('distinct protocol lines (one join / xor call on a pair of tables) on which the implementation returned a table and at '
-        'least one of the two operands has 2 or more rows')
-TRUSTED = ['correspondence harness (pv.engine, pv.proto) and generators / reference join of pv.props.c02',
+RULE = ('distinct protocol lines (one join / xor call on a pair of tables, or one _listby call) on which the implementation returned a '
+        'table / group list and at least one of the operands has 2 or more rows')
+TRUSTED = ['correspondence harness (pv.engine, pv.proto) and generators / reference join + xor (statement_check) of pv.props.c02',
            'Lean driver parser/printer (PygModel/Basic.lean, JoinDriver.lean)']
-ASSUMPTIONS = ['pyg_base.sort orders the (key, row id) pairs as the model of C07 does (native sorted() agrees with cmp whenever it does not raise)',
+ASSUMPTIONS = ['pyg_base.sort orders the (key, row id) pairs as the model of C07 does (native sorted() agrees with cmp whenever it does not raise); '
+               'sampled directly by the _listby lines (group order and row-id order compared exactly)',
                'callables used as computed keys / modes are pure; only the named callables id, dbl, const / fst, snd, swap, lst are exercised',
                'termination of the implementation is observed through a 2 s alarm per call, in the model it is proved',
-               'keys outside the property universe are not generated: bools (True == 1 but cmp differs), containers']
+               'keys outside the property universe are not generated: bools (True == 1 but cmp differs), containers',
+               'known finding C02-K1: a non-key column named like a key column of the result is dropped by join (model copies the code; '
+               'the statement-level reference reports it, the matcher recognises exactly that input class)']
 CALL_TIMEOUT = 8
 
 D = datetime.datetime
